@@ -265,6 +265,8 @@ def parse_trace(raw):
                 db["integrity"].append(t[2])
             elif kind == "api-epoch":
                 db["epoch"] = kv
+            elif kind == "api-foreign":
+                db["foreign"] = kv
             else:
                 db["errors"].append(line)
         else:
@@ -590,6 +592,11 @@ def check_db(db, ledger, iteration=None, strict_computed=True):
         return "database dump error: %s" % db["errors"][0]
     if db["integrity"] != ["6f6b"]:
         return "PRAGMA integrity_check: %s" % [unhx(x) for x in db["integrity"]]
+    fo = db.get("foreign")
+    if fo and db["info"] is not None and (fo["first"] != "0" or fo["second"] != "0" or fo["getkeys"] != "0"):
+        return ("a BuildDB handle of ANOTHER client version that must not recreate the file was not rejected: first "
+                "operation ok=%s, second ok=%s (epoch %s), getKeys ok=%s (%s keys)" % (
+                    fo["first"], fo["second"], fo["epoch"], fo["getkeys"], fo["nkeys"]))
     id2key = {}
     for k in db["keys"]:
         if k["id"] in id2key:
